@@ -76,6 +76,16 @@ Proof.
   vm_compute. repeat split; auto. intros [|[|[|i]]]; discriminate.
 Qed.
 
+(* no goroutine of the connection remains: `final` (above) still lets a read pump be on its way out (its socket is closed, or
+   it holds a message and closeConn or writeDone is closed). After a tearing Close has returned, in every later state, those
+   read pumps end by their own next steps - one step each, nothing else needed - and the state is then final with every
+   read pump gone *)
+Theorem C09_nothing_left_after_close : forall ls, let s := exec good init ls in tore s = true ->
+  let s' := exec good s (map LRp (seq 0 (length (trs s)))) in
+  final s' = true /\ forallb rp_out (trs s') = true.
+Proof. exact nothing_left_after_close. Qed.
+Print Assumptions C09_nothing_left_after_close.
+
 (* the code as it was before the repairs, refuted: Invoke after Close and a second Close kill the
    process (cfg without the nil guards) *)
 Theorem C09_old_invoke_after_close_refuted :
